@@ -1,5 +1,5 @@
 SPECIFICATION TraceSpec
 CONSTANTS
   NA = 320
-INVARIANTS CrashSafeT PropOK ExitOK BlameOK FSOK PredOK
+INVARIANTS CrashSafeT PropOK ExitOK BlameOK AffectedOK FSOK PredOK
 CHECK_DEADLOCK FALSE
